@@ -54,6 +54,15 @@ var tvMenuFull = []tvForm{
 	{"b", "b"}, {"b2", "b2"}, {"nb", "nb"}, {"fb", "fb()"},
 	{"xs", "xs"}, {"nxs", "nxs"}, {"arr", "arr"}, {"parr", "parr"}, {"m", "m"}, {"nm", "nm"}, {"fxs", "fxs()"},
 	{"f", "f"}, {"nf", "nf"}, {"t", "t"}, {"pt", "pt"}, {"sti", "st.i"}, {"sts", "st.s"}, {"tmp", "tmp"}, {"ok", "ok"}, {"nil", "nil"},
+	// operands of library types (writers, buffers, a compiled regexp, a wait group, a sync.Map)
+	{"w", "w"}, {"buf", "buf"}, {"pbuf", "pbuf"}, {"sbld", "sbld"}, {"re", "re"}, {"wg", "wg"}, {"smap", "smap"},
+}
+
+// declarations of the library-typed operands; each needs its package imported (left out in
+// the environment that gives that package's name to a user variable)
+var tvLibDecls = []struct{ pkg, decl string }{
+	{"io", "var w io.Writer\n"}, {"bytes", "var buf bytes.Buffer\nvar pbuf *bytes.Buffer\n"}, {"strings", "var sbld *strings.Builder\n"},
+	{"regexp", "var re *regexp.Regexp\n"}, {"sync", "var wg sync.WaitGroup\nvar smap *sync.Map\n"},
 }
 
 func tvMenu(names ...string) []tvForm {
@@ -175,6 +184,16 @@ func tvFile(pkgName, env, body string, extra string) string {
 			used[mm[1]] = true
 		}
 	}
+	shadowedPkg := ""
+	if strings.HasPrefix(env, "pkgvar:") {
+		shadowedPkg = strings.SplitN(strings.TrimPrefix(env, "pkgvar:"), ":", 2)[0]
+	}
+	for _, ld := range tvLibDecls {
+		if ld.pkg != shadowedPkg {
+			used[ld.pkg] = true
+			extra = ld.decl + extra
+		}
+	}
 	// pkgvar:<pkg>:<result type>: the package's name denotes a variable of a user type whose
 	// methods share the spelling of the package's functions; the package is not imported
 	if strings.HasPrefix(env, "pkgvar:") {
@@ -223,6 +242,9 @@ type tvCand struct {
 	Code    string
 	Src     string
 	Off     int // offset of Code in Src
+	// ExprSibling: this is the expression-statement variant of that expression candidate; it is
+	// kept only if the expression variant is ill-typed (a call with several results or none)
+	ExprSibling *tvCand
 }
 
 var tvVarRE = regexp.MustCompile(`\$\*?[A-Za-z_]\w*|\$\$`)
@@ -263,12 +285,12 @@ func tvInstantiate(r *irRule, ridx int, pat string, quick bool, withPkgVar bool)
 	case nNamed == 2:
 		menu = tvMenuFull
 		if quick {
-			menu = tvMenu("i", "lit3", "lit0", "fi", "s", "s2", "strlit", "ns", "fs", "b", "b2", "nb", "xs", "nxs", "arr", "parr", "m", "nm", "f", "t", "pt", "sti", "tmp")
+			menu = tvMenu("i", "lit3", "lit0", "fi", "s", "s2", "strlit", "ns", "fs", "b", "b2", "nb", "xs", "nxs", "arr", "parr", "m", "nm", "f", "t", "pt", "sti", "tmp", "w", "sbld", "pbuf", "re")
 		}
 	case nNamed == 3:
-		menu = tvMenu("i", "lit0", "s", "s2", "strlit", "b", "xs", "t", "tmp", "fi", "fs")
+		menu = tvMenu("i", "lit0", "s", "s2", "strlit", "b", "xs", "t", "tmp", "fi", "fs", "nil", "w")
 		if quick {
-			menu = tvMenu("i", "lit0", "s", "s2", "b", "xs", "tmp", "fs")
+			menu = tvMenu("i", "lit0", "s", "s2", "b", "xs", "tmp", "fs", "nil")
 		}
 	default:
 		menu = tvMenu("tmp", "s", "s2", "i", "b")
@@ -378,6 +400,15 @@ func tvInstantiate(r *irRule, ridx int, pat string, quick bool, withPkgVar bool)
 				cand.Src = tvFile("cand", env, body, "")
 				cand.Off = strings.LastIndex(cand.Src, c)
 				out = append(out, cand)
+				if kind == "expr" && strings.HasSuffix(strings.TrimSpace(c), ")") {
+					// a call may have several results or none: also as an expression statement
+					c2 := *cand
+					c2.Kind = "stmts"
+					c2.Src = tvFile("cand", env, "func target() {\n\t"+c+"\n}\n", "")
+					c2.Off = strings.LastIndex(c2.Src, c)
+					c2.ExprSibling = cand
+					out = append(out, &c2)
+				}
 			}
 			return
 		}
@@ -991,7 +1022,14 @@ func runRuleTV(prop string) func(rc *runCtx, ev *evidence) (int, bool) {
 			wg.Wait()
 			var keep []*tvCand
 			seen := map[string]bool{}
+			okOf := map[*tvCand]bool{}
 			for i, c := range cands {
+				okOf[c] = okv[i]
+			}
+			for i, c := range cands {
+				if c.ExprSibling != nil && okOf[c.ExprSibling] {
+					continue // the value form exists: discarding the value is not the subject
+				}
 				if okv[i] && !seen[c.Src] {
 					seen[c.Src] = true
 					keep = append(keep, c)
